@@ -318,9 +318,13 @@ def run_cfg(ctx, p, cfg):
                 if blk["term"]["k"] == "switch" and blk["id"] in h.reachable_blocks():
                     si = SwitchInfo(h, blk["id"])
                     nf = cmp_nf(si.discr, True)
+                    neg = None      # the edge on which v < 0
                     if nf and nf[0] == "Lt" and deep_strip(nf[1]) == ("param", 2) and deep_strip(nf[2]) == ("const", "int", 0):
-                        ok = only_err_from(h, si.target_of(True)) and blk["id"] == 0 or h.dominates(blk["id"], list(ok_blocks(h))[0]) if ok_blocks(h) else False
-                        ok = ok and only_err_from(h, si.target_of(True))
+                        neg = si.target_of(True)
+                    elif nf and nf[0] == "Le" and deep_strip(nf[1]) == ("const", "int", 0) and deep_strip(nf[2]) == ("param", 2):
+                        neg = si.target_of(False)       # `if v >= 0 { Ok(..) } else { Err(..) }`
+                    if neg is not None:
+                        ok = bool(ok_blocks(h)) and all(h.dominates(blk["id"], ob) for ob in ok_blocks(h)) and only_err_from(h, neg)
             r.require(ok, "%s:negative-rejected" % who, fn=h, detail="visit_i64 returns Err on the v < 0 edge, which dominates the Ok return")
         # parsed negative in visit_str (interval)
         okn = False
